@@ -111,7 +111,7 @@ TEXT_POSITIONS = ["%s", "x %s y", ".Sm %s", ".Sm a %s", ".Bm\n%s\n.Em", ".Ch %s"
 
 # configuration values that reach markup without being rendered (D29-D33): image names with special characters
 # (the harness creates them), raw parameters, header ids used as anchors or file names
-CONFIG_DOCS = [".Im b\\e.png", ".Im b\\e.png cap", ".Im c&o.png", ".Im c\"o.png", ".Im c&o.png cap",
+CONFIG_DOCS = [".Im b\\e.png", ".Im b\\e.png cap", ".Im d\\e", ".Im d\\e cap", ".Im c&o.png", ".Im c\"o.png", ".Im c&o.png cap",
                ".X set lang e\"n\nt", ".X set xhtml-css a&b\".css\nt", ".X set xhtml-favicon f\"<.ico\nt", ".X set dmark <\n.D\nt", ".X set dmark &\n.D\nt",
                ".X set xhtml-custom-ids 1\n.Ch -id a&b T\nt\n.Sh -id c\"d U\n.Tc\n.Sx a&b", ".X set xhtml-custom-ids 1\n.Ch -id a<b T\n.Tc",
                ".X set xhtml-chap-custom-filenames 1\n.Ch -id a&b T\nt\n.Ch -id c\"d U\nu\n.Tc", ".X set xhtml-chap-custom-filenames 1\n.X set xhtml-custom-ids 1\n.Ch -id a'b T\n.Sh -id x>y U",
@@ -1025,7 +1025,14 @@ class C14(E2EProp):
         if 'full-path="EPUB/content.opf"' not in files.get("META-INF/container.xml", ""):
             return "container does not point at the package file"
         opf = files.get("EPUB/content.opf", "")
-        items = re.findall(r'<item\s[^>]*href="([^"]*)"[^>]*>', opf)
+        # every XML file of the book is well formed (D31: file names in the package file and the cover page)
+        for n, text in files.items():
+            if n.endswith((".opf", ".xhtml", ".ncx", ".xml")):
+                e = oracles.xml_wf(text, False)
+                if e and "KNOWN:" not in (oracles.c02_oracle(case, go) or "KNOWN:"):
+                    return "file %r is not well-formed XML: %s" % (n, e)
+        import html as _html
+        items = [_html.unescape(h) for h in re.findall(r'<item\s[^>]*href="([^"]*)"[^>]*>', opf)]
         for h in items:
             if "EPUB/" + h not in files:
                 return "manifest lists %r which does not exist" % h
@@ -1044,6 +1051,7 @@ class C14(E2EProp):
            ".X set document-title T\n.X set epub-uuid u\n.X set xhtml-chap-custom-filenames 1\n.X set xhtml-chap-prefix pre\n"]
     # the cover page and a user stylesheet are not modelled (DESIGN 0.1): their documents go to an implementation-only stream
     PRE_COVER = ".X set document-title T\n.X set epub-uuid u\n.X set epub-css i.png\n.X set epub-cover img.png\n"
+    PRE_COVER2 = ".X set document-title T\n.X set epub-uuid u\n.X set epub-cover c&o.png\n"
 
     def plan(self, tier, rng):
         n = T(tier, 3, 4)
@@ -1060,6 +1068,7 @@ class C14(E2EProp):
     def cover_stream(self, tier):
         n = T(tier, 2, 3)
         cases = [e2e.case_of("e3", self.PRE_COVER + e2e.doc_of(list(s))) for k in range(0, n + 1) for s in itertools.product(self.FAM, repeat=k)]
+        cases += [e2e.case_of("e3", self.PRE_COVER2 + d) for d in [".Ch A\nt\n", ".Im c\"o.png\n.Ch A\n", ".Im c&o.png cap\n"]]
         st = e2e.E2EStream("S-e2e-epub-cover", "e2e", cases, oracle=self.oracle, exhaustive=True, nontrivial=nontrivial,
                            describe="the same with a cover image and a user stylesheet (not modelled): implementation side and oracle only")
         st.impl_only = True
